@@ -39,6 +39,9 @@ CHECKS["C11"]=dict(engine="node", design="5/C11", note=_node_note+" Both texts a
 CHECKS["C16"]=dict(engine="node", design="5/C16", note="Trusted: the edit catalogue's tagging of an edit as semantic or cosmetic (value domains exclude textually different but equal values); a separate OS process stands in for 'different processes'. Input-dominated property (DESIGN 6): the simulated part is the process / sidecar-API dimension; the world engine covers in-sync over cycles.",
   text="Seeded search over generated configurations x cosmetic re-renderings x single-setting semantic edits: equal text must hash equal in two config managers, in a child OS process and as reported by a real sidecar's runtimeinfo after the real push route; cosmetic variants (formatting, key order, quoting, comments, external labels) must hash equal; every semantic edit (each scalar kind incl. regexes and secrets, SD options, list reorder) must change the hash.")
 
+CHECKS["C18"]=dict(engine="k8s", design="5/C18", note="Trusted: client-go's fake clientset as API-server stub (object tracker semantics); reactors inject errors and the pod list order.",
+  text="The real kubernetes ReplicasManager/shardManager run against a fake clientset: complete fault-free sweeps of a small (old,new,templates,flag) grid inside runs plus seeded cases with injected API errors (get/update/delete per ordinal), a concurrent writer, drawn pod list orders, pods without IP, extra pods, rolling-update StatefulSets; oracles on objects left in the stub (replicas, exactly the removed ordinals' claims, never a remaining shard's claim under any error, no write when unchanged) and on the Shard list (ordinal order, address via the URL actually called, readiness).")
+
 NOT_YET = {
 }
 
@@ -75,6 +78,7 @@ def main():
         },
         "engines": [
             {"name": "cycle", "path": "sim/cycle", "serves_properties": [k for k, v in CHECKS.items() if v["engine"] == "cycle"], "kind_free_text": "one real coordination cycle against scripted sidecars under a PRNG-driven request scheduler"},
+            {"name": "k8s", "path": "sim/k8seng", "serves_properties": [k for k, v in CHECKS.items() if v["engine"] == "k8s"], "kind_free_text": "real kubernetes shard managers against a client-go fake clientset with error reactors"},
             {"name": "node", "path": "sim/node", "serves_properties": [k for k, v in CHECKS.items() if v["engine"] == "node"], "kind_free_text": "one real sidecar under drawn operation and fault sequences against a reference model; real net/http over net.Pipe for C13/C12"},
         ],
         "checks": checks,
